@@ -267,6 +267,9 @@ func newRig(t *testing.T, c Case) *rig {
 	}
 	r.indirect, err = ctfex.New(ctfex.Opts{LogKey: key, Roots: world.Roots(), Backend: r.beI, Clock: r.clock, ChainStorage: r.store,
 		Inst: func(io *ctfe.InstanceOptions) {
+			// the deadline of backend and storage calls is not under test here; an hour keeps a slow, busy machine
+			// from turning a burst of readers into deadline errors
+			io.Deadline = time.Hour
 			if c.CacheType == "lru" {
 				io.CacheType = cache.LRU
 				io.CacheOption = cache.Option{Size: c.CacheSize, TTL: time.Duration(c.TTLms) * time.Millisecond}
